@@ -215,6 +215,13 @@ namespace
 		parts.push_back(down(w));
 		parts.push_back(']');
 	      }
+	    else if (w == '^')
+	      {
+		// "[^]" is not a valid bracket expression (a leading ^
+		// negates the set), so match ^ with an escape instead.
+		parts.push_back('\\');
+		parts.push_back('^');
+	      }
 	    else
 	      {
 		parts.push_back('[');
